@@ -253,7 +253,9 @@ def run_case(case, cnt=None, root=None, coef_set=None):
                 return (out, False) if not own else out
             size = len(o0.code)
             inside = 2 * srnd.randrange(1, max(2, size // 2)) if size > 4 else 2
-            bases = [0o40000, 0o157776, 0o177776 - 2 * srnd.randrange(0, 8), (0o200000 - inside) & ~1, 0]
+            bases = [0o40000, 0o157776, 0o177776 - 2 * srnd.randrange(0, 8), (0o200000 - inside) & ~1, 0,
+                     # the same addresses written as negative numbers ('.link -4' is 177774)
+                     -2 * srnd.randrange(1, 9), -0o1000]
             if not any(st.k in ("data", "wordlist") for st in prog.files[0].stmts) and not prog.aux:
                 # code without word data is just as position-independent at an odd base (only word DATA must be aligned)
                 bases += [0o1001, 0o157777, 0o40001]
@@ -267,6 +269,9 @@ def run_case(case, cnt=None, root=None, coef_set=None):
                     viol(f"position-independent program assembles at base 0o1000 but not at base {b:#o} (image {size} bytes, crosses the end of the address space: "
                          f"{b + size > 0o200000}): {meta.describe(o)}; source: {' | '.join(list(_t.values())[0].splitlines()[:20])}")
                     break
+                if o.base != (b & 0xFFFF):
+                    viol(f"base written as {b} ({b & 0xFFFF:#o}) but the assembled base is {o.base}")
+                    break
                 if o.code != o0.code:
                     d = meta.first_diff(o.code, o0.code)
                     viol(f"position-independent program differs between base 0o1000 and base {b:#o} at offset {d}: {o0.code[d & ~1:(d & ~1) + 4].hex()} vs {o.code[d & ~1:(d & ~1) + 4].hex()}; "
@@ -279,9 +284,9 @@ def run_case(case, cnt=None, root=None, coef_set=None):
                 try:
                     blob = file_formats["bin"](o.base, o.code)
                 except Exception as ex:  # pylint: disable=broad-except
-                    viol(f"position-independent program assembles at base {b:#o} ({size} bytes) but no 'bin' container of it can be made: {type(ex).__name__}: {ex}")
+                    viol(f"position-independent program assembles at base {b & 0xFFFF:#o} ({size} bytes) but no 'bin' container of it can be made: {type(ex).__name__}: {ex}")
                     break
-                if blob != struct.pack("<HH", b, size) + o0.code:
+                if blob != struct.pack("<HH", b & 0xFFFF, size) + o0.code:
                     viol(f"'bin' container of the position-independent image at base {b:#o} is not header(base, length) + image")
                     break
                 cnt["pic_containers_compared"] = cnt.get("pic_containers_compared", 0) + 1
